@@ -298,19 +298,17 @@ func c17Run(r *core.Run) {
 	r.Bounds["option_sets"] = len(optsets)
 	r.Assumptions = []string{"encoding/json and encoding/xml are the reference encoders (trusted)", "values the standard encoders refuse are outside the statement"}
 	r.Parallel(func(w, nw int, l *core.Local) {
+		// every (render, option set) is an episode on a FRESH instance, so that whatever a render leaves
+		// behind can only affect the requests of its own, replayable, episode
 		worlds := make([]*c17World, len(optsets))
-		for i, o := range optsets {
-			worlds[i] = c17Build(o)
-			if w == 0 {
-				l.States++
-			}
-		}
 		for oi := w; oi < len(ops); oi += nw {
 			if oi%512 == 0 && r.Expired() {
 				return
 			}
 			op := ops[oi]
 			for si, o := range optsets {
+				worlds[si] = c17Build(o)
+				l.States++
 				l.Evals++
 				l.Transitions++
 				l.Traces++
